@@ -428,6 +428,15 @@ def check(pid, tier, seed, only_random=False, extra=None):
             scripts.append(conn.gen_exec(rnd, xid, tp, spec["profile"]))
             origin[xid] = ("random", None)
 
+    # directed: reset under a blocking byte-stream send (own generator state: the random executions of a seed stay as they were)
+    if pid in ("C02", "C03"):
+        import random as _random
+        r2 = _random.Random(seed * 7919 + 13)
+        for i in range(12 if tier == "quick" else 120):
+            xid += 1
+            scripts.append(conn.gen_blkreset_exec(r2, xid, ("btcp", "btls")[i % 2]))
+            origin[xid] = ("blkreset", None)
+
     # ---- 4. execute + validate ---------------------------------------------
     tag = "%s_%s" % (pid, tier)
     d, traces = conn.run_scripts(binary, scripts, tag)
